@@ -163,6 +163,8 @@ def triage(w, report, prop, family, c, rel, hname, arg, cx):
            "model": model, "input": model_bytes(model), "msg": msg, "peg": c.peg if c else "",
            "variants": [[r, f] for r, _, f in (c.variants if c else [])], "native": {k: nat[k] for k in ("fails", "panic", "timeout", "notes")}}
     reproduced = bool(nat["fails"]) or (nat["panic"] is not None and msg.startswith("uncaught")) or nat["timeout"]
+    if "re-entered" in msg and nat["panic"] and "stack overflow" in nat["panic"]:
+        reproduced = True  # the native symptom of unbounded recursion
     if hang and not nat["timeout"] and not nat["fails"]:
         # the native run terminates: the engine's step limit was simply too small for this path
         report.inconclusive.append("%s %s n=%d: engine step limit hit but the native run terminates (model %s)" % (rel, hname, arg, model))
